@@ -414,4 +414,21 @@ example : (match serialize exCI with
         && (reloadDump (fun _ => .ok (PyVal.canon j)) (JsonText.dumps j) == reloadDump (fun _ => .ok j) (JsonText.dumps j))
     | .error _ => false) = true := by decide +kernel
 
+/-! ### the documented enumerations are exactly the tables the code carries -/
+def CI.sameSet (a b : List Str) : Bool := a.all (b.contains ·) && b.all (a.contains ·)
+
+/-- **Tables, both inclusions.** The 14 path categories of the `VariantPaths` documentation, the 9 release types, 5 compose
+types, 10 label names and 4 variant types of the property text are the generated tables — nothing missing, nothing extra
+(a category lost or fused in `_fields`, a type dropped from a table: this stops compiling). -/
+theorem C01_tables :
+    sameSet Gen.COMPOSEINFO_PATH_FIELDS
+      [k%"os_tree", k%"packages", k%"repository", k%"isos", k%"images", k%"jigdos", k%"source_tree", k%"source_packages",
+       k%"source_repository", k%"source_isos", k%"source_jigdos", k%"debug_tree", k%"debug_packages", k%"debug_repository"] = true ∧
+    Gen.COMPOSEINFO_PATH_FIELDS.Nodup ∧
+    sameSet Gen.RELEASE_TYPES [k%"fast", k%"ga", k%"updates", k%"updates-testing", k%"eus", k%"aus", k%"els", k%"tus", k%"e4s"] = true ∧
+    sameSet Gen.COMPOSE_TYPES [k%"test", k%"ci", k%"nightly", k%"production", k%"development"] = true ∧
+    sameSet Gen.LABEL_NAMES [k%"EA", k%"DevelPhaseExit", k%"InternalAlpha", k%"Alpha", k%"InternalSnapshot", k%"Beta", k%"Snapshot",
+      k%"RC", k%"Update", k%"SecurityFix"] = true ∧
+    sameSet Gen.VARIANT_TYPES [k%"variant", k%"optional", k%"addon", k%"layered-product"] = true := by decide +kernel
+
 end PM
